@@ -144,7 +144,12 @@ def drive(tasks, link=None, max_steps=200000, on_stall="eof", order=None,
                 # accepts anything)
                 if r == 0:
                     waiting[name] = True
-                spin[name] += 1
+                if r == 0 and link is not None and \
+                        not _input_pending(link, [name]):
+                    # nothing to read yet: idle, not spinning
+                    pass
+                else:
+                    spin[name] += 1
                 if spin[name] > spin_limit * 10:
                     verdict = "spin"
                     for n in live:
@@ -162,7 +167,10 @@ def drive(tasks, link=None, max_steps=200000, on_stall="eof", order=None,
             if link is not None and _input_pending(link, live):
                 # someone has unread input but still reports blocked:
                 # give it spin_limit more steps before calling it a spin
-                if max(spin[n] for n in live) > spin_limit:
+                # (count only the tasks that do have input waiting: a task
+                # starved by a slow peer accumulates idle steps legitimately)
+                if max(spin[n] for n in live
+                       if _input_pending(link, [n])) > spin_limit:
                     verdict = "spin"
                     for n in live:
                         outs[n].state = "blocked"
